@@ -829,7 +829,9 @@ package engine
 //@   loop 2 decreases nr - current_state.programCounter
 //@   loop 3 ghost S (Array Int Str) := store(S, 0, "") ;; store(S, i, select(S, i - 1) ++ ssub(d, select(O, i - 1), replacedMatches[i - 1].Offset.Start) ++ replText(replacedMatches[i - 1]))
 //@   loop 3 ghost O (Array Int Int) := store(O, 0, 0) ;; store(O, i, replacedMatches[i - 1].Offset.Start + len(replacedMatches[i - 1].Value))
-//@   loop 3 invariant io: 0 <= i && i <= len(replacedMatches) && wInv(writer) && rdInv(replaceReader) && rdData(replaceReader) == d && reader.size == len(d) && (mode == NOTHING ? (!wIsFile(writer) && fs == fs0) : (wIsFile(writer) && wFile(writer).name == destName(mode, filename) && fs == store(fs0, destName(mode, filename), select(S, i))))
+//@   loop 3 invariant bounds: 0 <= i && i <= len(replacedMatches) && wInv(writer) && reader.size == len(d)
+//@   loop 3 invariant source: rdInv(replaceReader) && rdData(replaceReader) == d
+//@   loop 3 invariant io: mode == NOTHING ? (!wIsFile(writer) && fs == fs0) : (wIsFile(writer) && wFile(writer).name == destName(mode, filename) && fs == store(fs0, destName(mode, filename), select(S, i)))
 //@   loop 3 invariant apart: (mode == NOTHING ==> fresh((writer.contents as *files.MemoryStream).contents)) && (rdIsFile(replaceReader) ==> !fresh(rdBF(replaceReader).buffer))
 //@   loop 3 invariant offsets: currentWriterOffset == len(select(S, i)) && lastReaderOffset == select(O, i) && 0 <= lastReaderOffset && lastReaderOffset <= len(d) && (i > 0 ==> lastReaderOffset == replacedMatches[i - 1].Offset.End)
 //@   loop 3 invariant recurrence: select(S, 0) == "" && (forall k :: { replacedMatches[k] } 0 <= k && k < i ==> select(S, k + 1) == select(S, k) ++ ssub(d, select(O, k), replacedMatches[k].Offset.Start) ++ replText(replacedMatches[k]))
